@@ -373,6 +373,15 @@ func (c *FnCtx) instr(in ssa.Instruction, bv *BlockVC) {
 	case *ssa.Store:
 		l := c.addrLoc(x.Addr, in)
 		v := c.val(x.Val)
+		if g, ok := x.Addr.(*ssa.Global); ok {
+			for _, gi := range c.V.DB.GlobalInvs {
+				if gi.Field == g.Name() {
+					env := &SEnv{c: c, st: c.cur, old: c.entry, vars: map[string]Val{"v": v}, bound: map[string]bool{}}
+					ob := c.assert(c.curItems, "globalinv", "globalinv", g.Name(), env.trGoal(gi.E), in, nil, true)
+					ob.Text = gi.Text
+				}
+			}
+		}
 		c.checkFieldInv(x, l, v)
 		if ia, ok := x.Addr.(*ssa.IndexAddr); ok {
 			if _, isSlice := ia.X.Type().Underlying().(*types.Slice); isSlice {
@@ -521,6 +530,12 @@ func (c *FnCtx) unop(x *ssa.UnOp) {
 			v := Val{T: n, S: s, GT: x.Type()}
 			c.assume(c.curItems, c.typeFacts(v, c.entry))
 			c.note("package-level variables never assigned outside init are constants")
+			for _, gi := range c.V.DB.GlobalInvs {
+				if gi.Field == g.Name() && c.fn.Synthetic != "package initializer" {
+					env := &SEnv{c: c, st: c.cur, old: c.entry, vars: map[string]Val{"v": v}, bound: map[string]bool{}}
+					c.assume(c.curItems, env.trAssume(gi.E))
+				}
+			}
 			c.bind(x, v)
 			return
 		}
